@@ -739,6 +739,69 @@ func idString(id connect.CertURI) string {
 	return fmt.Sprintf("unknown-%T", id)
 }
 
+// structural restatement of the URI grammar, independent of ParseCertURI's regular expressions:
+// the escaped path has exactly the keyword / value segments of its kind, no value is empty or
+// contains a raw '/', and the decoded values are the fields of the parsed identity.
+func structureMismatch(u *url.URL, id connect.CertURI) string {
+	segs := strings.Split(u.EscapedPath(), "/")
+	if len(segs) < 2 || segs[0] != "" {
+		return "path does not start with /"
+	}
+	segs = segs[1:]
+	ap := "default"
+	if len(segs) >= 2 && segs[0] == "ap" {
+		d, err := url.PathUnescape(segs[1])
+		if err != nil || d == "" {
+			return "bad partition segment"
+		}
+		ap, segs = d, segs[2:]
+	}
+	var keys, vals []string
+	switch v := id.(type) {
+	case *connect.SpiffeIDService:
+		keys, vals = []string{"ns", "dc", "svc"}, []string{v.Namespace, v.Datacenter, v.Service}
+		if v.Partition != ap {
+			return "partition"
+		}
+	case *connect.SpiffeIDAgent:
+		keys, vals = []string{"agent/client/dc", "id"}, []string{v.Datacenter, v.Agent}
+		if v.Partition != ap {
+			return "partition"
+		}
+	case *connect.SpiffeIDMeshGateway:
+		keys, vals = []string{"gateway/mesh/dc"}, []string{v.Datacenter}
+		if v.Partition != ap {
+			return "partition"
+		}
+	case *connect.SpiffeIDServer:
+		keys, vals = []string{"agent/server/dc"}, []string{v.Datacenter}
+		if ap != "default" {
+			return "server id with partition"
+		}
+	default:
+		return "kind"
+	}
+	var want []string
+	for i, k := range keys {
+		want = append(want, strings.Split(k, "/")...)
+		want = append(want, "\x00"+vals[i])
+	}
+	if len(want) != len(segs) {
+		return fmt.Sprintf("%d path segments, the identity has %d", len(segs), len(want))
+	}
+	for i, w := range want {
+		if strings.HasPrefix(w, "\x00") {
+			d, err := url.PathUnescape(segs[i])
+			if err != nil || segs[i] == "" || d != w[1:] {
+				return fmt.Sprintf("segment %d is %q, identity field is %q", i, segs[i], w[1:])
+			}
+		} else if segs[i] != w {
+			return fmt.Sprintf("segment %d is %q, expected keyword %q", i, segs[i], w)
+		}
+	}
+	return ""
+}
+
 // identity without the host: what must survive from the request into the certificate
 func idScope(id connect.CertURI) string {
 	switch v := id.(type) {
@@ -999,6 +1062,9 @@ func (s *sess) doSign(r *hx.RNG, spec csrSpec, ag authzGen, tags []string) bool 
 		return true
 	}
 	s.run.Tag("sign:ok:" + kind)
+	if why := structureMismatch(leaf.URIs[0], cid); why != "" {
+		s.violate("ca:issued-uri-structure-differs-from-parsed-identity", fmt.Sprintf("%s parsed as %s: %s", leaf.URIs[0], idString(cid), why))
+	}
 	// the RPC reply must describe the certificate it carries
 	replyURI, replyName, wantName := "", "", ""
 	switch v := cid.(type) {
